@@ -22,6 +22,7 @@ func init() {
 			a.exchangeWipedOnEveryPath("S.lifecycle-wipes")
 			a.abandonWipes("S.lifecycle-wipes")
 			a.handlersOnlyThroughTable("S.tlv-loop")
+			a.tlvParseLoopComplete("S.tlv-loop")
 			a.resendKeepsCopy("S.plaintext-retention")
 		})
 }
